@@ -8,7 +8,7 @@ from props import util
 from props.C08 import asset_steps
 
 THEOREMS = ['C06_min_runtime_exact', 'C06_min_downtime_exact', 'C06_capacity_when_on_off', 'C06_ramp_between_steps', 'C06_first_step_ramp',
-            'C06_start_flags', 'C06_heat_share', 'C06_fuel_balance']
+            'C06_start_flags', 'C06_heat_share', 'C06_fuel_balance', 'C06_plant_downtime_rows_exact', 'C06_plant_runtime_rows_sound']
 CFG = {'freqs': ['h', 'h', '2h'], 'units': ['h'], 'tzs': [None], 'T': (4, 8), 'p_unaligned_end': 0.0, 'p_inflow': 0.0}
 
 
@@ -176,7 +176,7 @@ def pattern_oracle(ctx, sp, o):
 
 
 def run(ctx):
-    if not ctx.proof_gate(THEOREMS, ['PlantProofs.vo', 'Plant.vo']):
+    if not ctx.proof_gate(THEOREMS, ['PlantProofs.vo', 'Plant.vo', 'PlantRows.vo']):
         return
     n = 60 if ctx.tier == 'quick' else 400
     specs = util.corpus(ctx.prop) + gen.gen_many_plants(ctx.seed, n, CFG, 'c06_')
